@@ -79,6 +79,7 @@ type DDLRec struct {
 	Step  int    `json:"step"`
 	Clock int    `json:"clock"`
 	Err   bool   `json:"err,omitempty"`
+	Fault string `json:"fault,omitempty"` // injected outcome: the caller saw an error although Err may be false (applied, then rejected)
 }
 
 type SDKState struct {
@@ -152,7 +153,7 @@ func (c *simClient) ddl(ctx context.Context, kind, coll, part string, f func() e
 	}
 	c.w.mu.Lock()
 	defer c.w.mu.Unlock()
-	rec := DDLRec{Kind: kind, DB: c.db, Coll: coll, Part: part, Inc: c.w.Inc, Step: c.w.step(), Clock: c.w.tick()}
+	rec := DDLRec{Kind: kind, DB: c.db, Coll: coll, Part: part, Inc: c.w.Inc, Step: c.w.step(), Clock: c.w.tick(), Fault: o.Fault}
 	if o.Fault == "ddl_reject_before" {
 		rec.Err = true
 		c.w.State.DDL = append(c.w.State.DDL, rec)
